@@ -170,7 +170,7 @@ func (c *converter) ProgramEnd() error {
 			`set "_i=0"`,
 			c.callFuncString(sliceLenGetHelper, []string{}, "%2"),
 			":_sch_loop",
-			`if "!_i!" lss "!_len!" (`,
+			`if !_i! lss !_len! (`,
 			`for /f "delims=" %%i in ("%2_!_i!") do set "_v=!%%i!"`,
 			c.sliceAssignmentString("!%1!", "!_i!", "!_v!", false),
 			`set /A "_i=!_i!+1"`,
@@ -193,7 +193,7 @@ func (c *converter) ProgramEnd() error {
 			c.callFuncString(sliceLenGetHelper, []string{}, "!%1!"), // Get current slice length.
 			`set "_i=!_len!"`,
 			":_sah_loop",
-			`if "!_i!" lss "%2" (`,
+			`if !_i! lss %2 (`,
 			c.sliceAssignmentString("!%1!", "!_i!", "%3", false),
 			`set /A "_i=!_i!+1"`,
 			"goto :_sah_loop",
